@@ -455,6 +455,13 @@ class Engine:
             if txt.endswith("inf"):
                 return z3.fpMinusInfinity(z3.Float64()) if txt.startswith("-") else z3.fpPlusInfinity(z3.Float64())
             return z3.FPVal(float(txt), z3.Float64())
+        fc = re.match(r"^(?:core|std)::f64::(?:<impl f64>::)?(INFINITY|NEG_INFINITY|NAN|MAX|MIN|EPSILON|MIN_POSITIVE)$", s)
+        if fc:
+            import struct as _st
+            f64c = {"INFINITY": z3.fpPlusInfinity(z3.Float64()), "NEG_INFINITY": z3.fpMinusInfinity(z3.Float64()), "NAN": z3.fpNaN(z3.Float64()),
+                    "MAX": z3.FPVal(1.7976931348623157e308, z3.Float64()), "MIN": z3.FPVal(-1.7976931348623157e308, z3.Float64()),
+                    "EPSILON": z3.FPVal(2.220446049250313e-16, z3.Float64()), "MIN_POSITIVE": z3.FPVal(2.2250738585072014e-308, z3.Float64())}
+            return f64c[fc.group(1)]
         if s.startswith('b"'):
             return ("bytes_const", s)
         if s.startswith('"'):
@@ -500,7 +507,7 @@ class Engine:
         if re.match(r"^[A-Za-z_]\w*(::[A-Za-z_]\w*)*::[A-Z]\w*$", s):
             # a tuple-variant constructor used as a function item, e.g. `Value::Int`
             return ("ctor", "::".join(s.split("::")[-2:]))
-        if re.match(r"^[a-z_]\w*(::[A-Za-z_]\w*)*(::<.*>)?$", s) and (s in self.fns or any(n.endswith("::" + s) or s.endswith("::" + n) for n in self.fns) or "::" in s):
+        if re.match(r"^[a-z_]\w*(::(?:<impl [^>]*>|[A-Za-z_]\w*))*(::<.*>)?$", s) and (s in self.fns or any(n.endswith("::" + s) or s.endswith("::" + n) for n in self.fns) or "::" in s):
             # a function item passed as a value (e.g. a parser function handed to a combinator)
             return ("fnitem", s)
         raise Unsupported("operand " + s)
